@@ -219,4 +219,48 @@ PROPS.update({
                                    'numpy.copy returns a fresh array with the same elements']),
 })
 
+BATCH_ASSUME = ['itertools.product(*lists): every index combination exactly once, lexicographic, first list slowest; '
+                'dict(pairs) builds a new dictionary with exactly those keys (later pairs win)',
+                'iter(x) raises TypeError at once iff x is not iterable; re-iterable collections yield the same items',
+                'user model constructors / score functions / systems do not touch the parameter dictionaries',
+                'multiprocessing.Pool.imap yields f(x) for every x in order; imap_unordered yields each exactly once in '
+                'some order; a worker exception is re-raised at the iterator (assumed, no schedule is explored)']
+
+PROPS.update({
+    'C14': dict(
+        level='other',
+        level_text='Deductive proof of the declaration part (constructor keeps names, values and order; add / remove are '
+                   'whole-view dictionary updates; non-string, duplicate and unknown names are rejected with nothing '
+                   'changed) and of the structure of build(): one (name, value) list per parameter in declaration order '
+                   '(loop invariant; strings and non-iterables wrapped, collections expanded item by item), every '
+                   'combination dictionary has exactly the declared names, one combination for no parameters, none for an '
+                   'empty collection, declaration untouched (frame). That each value is the chosen item, each combination '
+                   'occurs once and the first parameter varies slowest is NOT proved (the nested witness chain through '
+                   'the assumed product / dict contracts does not discharge): a bounded stand-in checks build() against '
+                   'an independent product oracle for all declarations of <= 3 parameters over a fixed value pool.',
+        level_note='bounded stand-in for the value / exactly-once / order clauses of build (replayers/batchw.py); '
+                   'itertools.product, dict() and the iterator protocol are assumed contracts.',
+        functions=['Batching.ParameterList.__init__#empty', 'Batching.ParameterList.__init__#dict',
+                   'Batching.ParameterList.add_parameter', 'Batching.ParameterList.add_parameter#nonstr',
+                   'Batching.ParameterList.remove_parameter', 'Batching.ParameterList.build'],
+        bounded=[dict(function='Batching.ParameterList.build',
+                      clause='value of every name in every combination, each combination exactly once, first-declared '
+                             'parameter slowest, repeatability, independent dictionaries',
+                      bound='all histories of <= 3 declared parameters drawn from {int, str, [], [7], [1,2], (1,1), '
+                            'range(3), numpy array, None} with add / remove / rebuild, plus seeded random histories')],
+        assumptions=BATCH_ASSUME),
+    'C16': dict(
+        level_text='Deductive proof (scores as reals): _score_model_for_search maps every mode to its aggregate; in '
+                   'grid_search (serial path) the collection loop keeps one result dictionary per combination in product '
+                   'order, and the selection loop invariant shows that the returned combination is the first whose '
+                   'aggregate is the minimum (even modes) / maximum (odd modes) over all combinations, each carrying the '
+                   'aggregate of its own scores.',
+        level_note='Aggregates (min, max, mean, sum, variance) are uninterpreted library functions - only the dispatch is '
+                   'verified; the model runs inside _run_model_for_search are user code (abstract contract: the same '
+                   'parameter dictionary comes back with the scores added); the parallel path rests on the assumed '
+                   'ordered Pool.imap and is exercised natively only; non-empty grid.',
+        functions=['Batching._score_model_for_search', 'Batching.grid_search'],
+        assumptions=BATCH_ASSUME + ['floats treated as reals (total order on finite floats is exact)']),
+})
+
 NOT_APPLICABLE = {}
